@@ -435,15 +435,7 @@ func runC06(ctx *runCtx) {
 		sem <- struct{}{}
 		go func(i int) {
 			defer func() { <-sem }()
-			sh, w := "", ""
-			func() {
-				defer func() {
-					if r := recover(); r != nil {
-						sh, w = "panic", fmt.Sprint(r)
-					}
-				}()
-				sh, w = runCloseCase(cases[i])
-			}()
+			sh, w := guarded(30*time.Second, func() (string, string) { return runCloseCase(cases[i]) })
 			out <- res{i, sh, w}
 		}(i)
 	}
